@@ -252,7 +252,7 @@ CHECKS = {'C01': {'level': 'exploration',
                     'checks': {'quick': 400, 'thorough': 20000},
                     'shards': {'quick': 1, 'thorough': 8},
                     'timeout': {'quick': 900, 'thorough': 3400},
-                    'env': {'GOMAXPROCS': 1}}]},
+                    'env': {'VERIF_PROP': 'C06', 'GOMAXPROCS': 1}}]},
  'C07': {'level': 'exploration',
          'rule': 'model-based stateful histories over all column kinds (enum, bool, record, key, expire, late columns, custom merges), all Capacity '
                  'options, 0..3 blocks with patterned bulk deletes and offset reuse; action snapshotRestore (up to 3 per history): Snapshot to a '
